@@ -8,14 +8,15 @@ Require Import Base.Wire Base.PyStr C04.Model C04.Sound C04.Assoc C04.Prune C04.
 Open Scope N_scope.
 
 (* ---- the invariant ---- *)
+(* every hostmask -> id key of _hostmaskCache is listed in the id -> set key
+   (what invalidateCache(id) relies on to find them).  The converse does not
+   hold: when the dictionary fills up between the two writes of an entry only
+   the id -> set half survives (CacheDict eviction), and the name cache is not
+   needed for the hostmask lookups at all. *)
 Record CacheInv (s : st) : Prop := {
   i_fwd_rev : forall h j, dict_get h (s_hcache s) = Some j ->
-                          exists l, nget j (s_hrev s) = Some l /\ In h l;
-  i_rev_fwd : forall j l, nget j (s_hrev s) = Some l ->
-                          NoDup l /\ forall h, In h l -> dict_get h (s_hcache s) = Some j;
-  i_name : forall j n, nget j (s_nrev s) = Some n -> dict_get n (s_ncache s) = Some j
+                          exists l, nget j (s_hrev s) = Some l /\ In h l
 }.
-
 
 (* account j does not recognise h, by mask or by any login (expired or not) *)
 Definition D1 (us : list (N * user)) (j : N) (h : str) : Prop :=
@@ -94,26 +95,12 @@ Lemma csub_refl c : csub c c.
 Proof. intros h j H. exact H. Qed.
 
 (* ---- invalidateCache(id) ---- *)
-Definition drop_loop (s1 : st) (id : N) :=
-  fix go (hs : list str) (c : list (str * N)) : res st :=
-    match hs with
-    | [] => Ok (St (s_users s1) c (ndel id (s_hrev s1)) (s_ncache s1) (s_nrev s1) (s_next s1))
-    | h :: r => if dict_has h c then go r (sdel h c) else Raise KeyError
-    end.
-
-Lemma drop_loop_ok s1 id hs c :
-  NoDup hs -> (forall h, In h hs -> dict_get h c = Some id) ->
-  exists c', drop_loop s1 id hs c = Ok (St (s_users s1) c' (ndel id (s_hrev s1)) (s_ncache s1) (s_nrev s1) (s_next s1))
-          /\ (forall h j, dict_get h c' = Some j <-> (dict_get h c = Some j /\ ~ In h hs)).
+Lemma sdel_fold_get (hs : list str) : forall (c : list (str * N)) h j,
+  dict_get h (fold_left (fun c0 h0 => sdel h0 c0) hs c) = Some j <-> (dict_get h c = Some j /\ ~ In h hs).
 Proof.
-  revert c. induction hs as [|h hs IH]; intros c Hnd Hall.
-  - exists c. split; [reflexivity|]. intros h j. split; [intro H; split; [exact H|intros []]|intros [H _]; exact H].
-  - inversion Hnd as [|? ? Hni Hnd']; subst. cbn [drop_loop]. fold (drop_loop s1 id).
-    unfold dict_has. rewrite (Hall h (or_introl eq_refl)).
-    destruct (IH (sdel h c) Hnd') as [c' [Hgo Hc']].
-    { intros h2 Hin. rewrite dict_get_sdel_other; [apply Hall; right; exact Hin|].
-      apply seq_eqb_neq. intro E. subst. contradiction. }
-    exists c'. split; [exact Hgo|]. intros h2 j. rewrite Hc'. split.
+  induction hs as [|h0 hs IH]; intros c h j; cbn [fold_left].
+  - split; [intro H; split; [exact H|intros []]|intros [H _]; exact H].
+  - rewrite IH. split.
     + intros [Hg Hn]. apply dict_get_sdel_some in Hg as [Hg Hne]. split; [exact Hg|].
       intros [E|Hin]; [subst; rewrite seq_eqb_refl in Hne; discriminate|contradiction].
     + intros [Hg Hn]. split.
@@ -125,61 +112,34 @@ Lemma invalidate_id_ok s id :
   CacheInv s ->
   exists s', invalidate_id s id = Ok s'
     /\ s_users s' = s_users s /\ s_next s' = s_next s
-    /\ (forall h j, dict_get h (s_hcache s') = Some j <-> (dict_get h (s_hcache s) = Some j /\ j <> id))
+    /\ (forall h j, dict_get h (s_hcache s') = Some j -> dict_get h (s_hcache s) = Some j /\ j <> id)
     /\ CacheInv s'.
 Proof.
-  intros [I2 I3 I5]. unfold invalidate_id.
-  (* name part *)
+  intros [I2]. unfold invalidate_id.
   set (s1 := match nget id (s_nrev s) with
              | Some n => St (s_users s) (s_hcache s) (s_hrev s) (sdel n (s_ncache s)) (ndel id (s_nrev s)) (s_next s)
              | None => s end).
-  assert (Hs1 : (match nget id (s_nrev s) with
-                 | Some n => if dict_has n (s_ncache s)
-                             then Ok (St (s_users s) (s_hcache s) (s_hrev s) (sdel n (s_ncache s)) (ndel id (s_nrev s)) (s_next s))
-                             else Raise KeyError
-                 | None => Ok s end) = Ok s1).
-  { unfold s1. destruct (nget id (s_nrev s)) as [n|] eqn:En; [|reflexivity].
-    unfold dict_has. rewrite (I5 _ _ En). reflexivity. }
-  rewrite Hs1. cbn [bind].
   assert (Hu1 : s_users s1 = s_users s /\ s_hcache s1 = s_hcache s /\ s_hrev s1 = s_hrev s /\ s_next s1 = s_next s).
   { unfold s1. destruct (nget id (s_nrev s)); auto. }
   destruct Hu1 as [Hu [Hc [Hr Hn]]].
-  assert (I5' : forall j n, nget j (s_nrev s1) = Some n -> dict_get n (s_ncache s1) = Some j).
-  { unfold s1. destruct (nget id (s_nrev s)) as [n0|] eqn:En; [|exact I5]. cbn [s_nrev s_ncache].
-    intros j n Hj. destruct (N.eq_dec j id) as [E|E]; [subst; rewrite nget_ndel_same in Hj; discriminate|].
-    rewrite nget_ndel_other in Hj by exact E. pose proof (I5 _ _ Hj) as Hg.
-    rewrite dict_get_sdel_other; [exact Hg|]. apply seq_eqb_neq. intro En2. subst n.
-    rewrite (I5 _ _ En) in Hg. inversion Hg. congruence. }
   destruct (nget id (s_hrev s1)) as [hs|] eqn:Eh; rewrite Hr in Eh.
-  - destruct (I3 _ _ Eh) as [Hnd Hall].
-    fold (drop_loop s1 id). rewrite Hc.
-    destruct (drop_loop_ok s1 id hs (s_hcache s) Hnd Hall) as [c' [Hgo Hc']].
-    rewrite Hgo. eexists. split; [reflexivity|]. cbn [s_users s_next s_hcache].
-    split; [exact Hu|]. split; [exact Hn|].
-    assert (Hiff : forall h j, dict_get h c' = Some j <-> dict_get h (s_hcache s) = Some j /\ j <> id).
-    { intros h j. rewrite Hc'. split.
-      - intros [Hg Hni]. split; [exact Hg|]. intro E. subst j.
-        destruct (I2 _ _ Hg) as [l [Hl Hin]]. rewrite Eh in Hl. inversion Hl; subst. contradiction.
-      - intros [Hg Hne]. split; [exact Hg|]. intro Hin. rewrite (Hall _ Hin) in Hg. inversion Hg. congruence. }
-    split; [exact Hiff|]. split; cbn [s_hcache s_hrev s_ncache s_nrev].
-    + intros h j Hg. apply Hiff in Hg as [Hg Hne]. rewrite Hr. rewrite nget_ndel_other by exact Hne. apply I2. exact Hg.
-    + intros j l Hl. rewrite Hr in Hl. destruct (N.eq_dec j id) as [E|E]; [subst; rewrite nget_ndel_same in Hl; discriminate|].
-      rewrite nget_ndel_other in Hl by exact E. destruct (I3 _ _ Hl) as [Hnd' Hall']. split; [exact Hnd'|].
-      intros h Hin. apply Hiff. split; [apply Hall'; exact Hin|exact E].
-    + exact I5'.
-  - exists s1. split; [reflexivity|]. split; [exact Hu|]. split; [exact Hn|].
-    assert (Hiff : forall h j, dict_get h (s_hcache s1) = Some j <-> dict_get h (s_hcache s) = Some j /\ j <> id).
-    { intros h j. rewrite Hc. split; [|intros [H _]; exact H]. intro Hg. split; [exact Hg|].
-      intro E. subst. destruct (I2 _ _ Hg) as [l [Hl _]]. congruence. }
-    split; [exact Hiff|]. split.
-    + rewrite Hc, Hr. exact I2.
-    + rewrite Hc, Hr. exact I3.
-    + exact I5'.
+  - eexists. split; [reflexivity|]. cbn [s_users s_next s_hcache s_hrev]. split; [exact Hu|]. split; [exact Hn|].
+    rewrite Hc, Hr.
+    assert (Hsub : forall h j, dict_get h (fold_left (fun c0 h0 => sdel h0 c0) hs (s_hcache s)) = Some j ->
+                               dict_get h (s_hcache s) = Some j /\ j <> id).
+    { intros h j Hg. apply sdel_fold_get in Hg as [Hg Hni]. split; [exact Hg|]. intro E. subst j.
+      destruct (I2 _ _ Hg) as [l [Hl Hin]]. rewrite Eh in Hl. inversion Hl; subst. contradiction. }
+    split; [exact Hsub|]. split. cbn [s_hcache s_hrev].
+    intros h j Hg. apply Hsub in Hg as [Hg Hne]. rewrite nget_ndel_other by exact Hne. apply I2. exact Hg.
+  - exists s1. split; [reflexivity|]. split; [exact Hu|]. split; [exact Hn|]. rewrite Hc.
+    split.
+    + intros h j Hg. split; [exact Hg|]. intro E. subst. destruct (I2 _ _ Hg) as [l [Hl _]]. congruence.
+    + split. rewrite Hc, Hr. exact I2.
 Qed.
 
 (* ---- small helpers ---- *)
 Lemma CacheInv_users s us : CacheInv s -> CacheInv (with_users s us).
-Proof. intros [A B C]. split; assumption. Qed.
+Proof. intros [A]. split; assumption. Qed.
 
 Lemma with_users_self s : with_users s (s_users s) = s.
 Proof. destruct s; reflexivity. Qed.
@@ -192,11 +152,56 @@ Proof.
 Qed.
 
 (* ---- lookups ---- *)
+Lemma dict_get_set k k' (v : N) l : dict_get k' (dict_set k v l) = if seq_eqb k' k then Some v else dict_get k' l.
+Proof.
+  destruct (seq_eqb k' k) eqn:E; [apply seq_eqb_eq in E; subst; apply dict_get_set_same|apply dict_get_set_other; exact E].
+Qed.
+
+(* the two writes of a cached answer, with the eviction rule of CacheDict *)
+Lemma hinsert_ok h id c r c' r' :
+  hinsert h id c r = (c', r') ->
+  (forall h2 j, dict_get h2 c = Some j -> exists l, nget j r = Some l /\ In h2 l) ->
+  (forall h2 j, dict_get h2 c' = Some j -> exists l, nget j r' = Some l /\ In h2 l) /\
+  (forall h2 j, dict_get h2 c' = Some j -> dict_get h2 c = Some j \/ (h2 = h /\ j = id)).
+Proof.
+  unfold hinsert. intros E I2.
+  set (c1 := fst (if cache_full c r then ([], []) else (c, r))) in *.
+  set (r1 := snd (if cache_full c r then ([], []) else (c, r))) in *.
+  assert (E1 : (if cache_full c r then ([], []) else (c, r)) = (c1, r1)) by (unfold c1, r1; destruct (cache_full c r); reflexivity).
+  rewrite E1 in E.
+  assert (I1 : forall h2 j, dict_get h2 c1 = Some j -> (exists l, nget j r1 = Some l /\ In h2 l) /\ dict_get h2 c = Some j).
+  { unfold c1, r1. destruct (cache_full c r); cbn [fst snd]; [intros h2 j H; discriminate|]. intros h2 j H. split; [apply I2; exact H|exact H]. }
+  assert (Hc2 : forall h2 j, dict_get h2 (dict_set h id c1) = Some j ->
+                 (h2 = h /\ j = id) \/ (h2 <> h /\ dict_get h2 c1 = Some j)).
+  { intros h2 j H. rewrite dict_get_set in H. destruct (seq_eqb h2 h) eqn:Eh.
+    - apply seq_eqb_eq in Eh. inversion H. auto.
+    - apply seq_eqb_neq in Eh. auto. }
+  destruct (nget id r1) as [l|] eqn:El.
+  - inversion E; subst c' r'. clear E. split.
+    + intros h2 j Hg. apply Hc2 in Hg as [[E1' E2']|[Hne Hg]].
+      * subst. rewrite nget_nset_same. eexists. split; [reflexivity|].
+        destruct (existsb (seq_eqb h) l) eqn:Ex; [|apply in_or_app; right; left; reflexivity].
+        apply existsb_exists in Ex as [y [Hy Hey]]. apply seq_eqb_eq in Hey. subst y. exact Hy.
+      * destruct (I1 _ _ Hg) as [[l2 [Hl2 Hin2]] _]. destruct (N.eq_dec j id) as [Ej|Ej].
+        -- subst j. rewrite El in Hl2. inversion Hl2; subst l2. rewrite nget_nset_same. eexists. split; [reflexivity|].
+           destruct (existsb (seq_eqb h) l); [exact Hin2|apply in_or_app; left; exact Hin2].
+        -- exists l2. split; [rewrite nget_nset_other by exact Ej; exact Hl2|exact Hin2].
+    + intros h2 j Hg. apply Hc2 in Hg as [[E1' E2']|[Hne Hg]]; [right; auto|left; apply (I1 _ _ Hg)].
+  - destruct (cache_full (dict_set h id c1) r1); inversion E; subst c' r'; clear E.
+    + split; intros h2 j Hg; discriminate.
+    + split.
+      * intros h2 j Hg. apply Hc2 in Hg as [[E1' E2']|[Hne Hg]].
+        -- subst. rewrite nget_nset_same. eexists. split; [reflexivity|left; reflexivity].
+        -- destruct (I1 _ _ Hg) as [[l2 [Hl2 Hin2]] _]. destruct (N.eq_dec j id) as [Ej|Ej]; [subst; congruence|].
+           exists l2. split; [rewrite nget_nset_other by exact Ej; exact Hl2|exact Hin2].
+      * intros h2 j Hg. apply Hc2 in Hg as [[E1' E2']|[Hne Hg]]; [right; auto|left; apply (I1 _ _ Hg)].
+Qed.
+
 Lemma miss_preserves t now s h :
-  Inv s -> ids_bounded s -> dict_get h (s_hcache s) = None ->
+  Inv s -> ids_bounded s ->
   Inv (fst (lookup_miss t now s h)) /\ ids_bounded (fst (lookup_miss t now s h)).
 Proof.
-  intros HI Hb Emiss. pose proof HI as [Hnd HC HL Hcoh]. pose proof HC as [I2 I3 I5]. unfold lookup_miss.
+  intros HI Hb. pose proof HI as [Hnd HC HL Hcoh]. pose proof HC as [I2]. unfold lookup_miss.
   pose proof (scan_users_pruned t now h (s_users s)) as Hp.
   pose proof (scan_users_ids t now h (s_users s)) as Hids.
   pose proof (scan_users_clean t now h (s_users s)) as Hclean.
@@ -205,61 +210,23 @@ Proof.
   - cbn [fst]. split.
     + apply (Inv_sub s); [exact HI|exact Hp|apply CacheInv_users; exact HC|apply csub_refl].
     + apply (bounded_pruned s); [exact Hb|exact Hp|apply N.le_refl].
-  - cbn [fst]. cbn [map fst] in Hids. rewrite (dict_set_absent _ _ _ Emiss).
+  - cbn [map fst] in Hids.
     assert (Hid : nget id us <> None).
     { assert (Hin : In id (map fst (filter (fun iu => recog t now (snd iu) h) (s_users s)))) by (rewrite <- Hids; left; reflexivity).
       apply in_map_iff in Hin as [[i u] [Hi Hin]]. cbn in Hi. subst i. apply filter_In in Hin as [Hin _].
       pose proof (In_nget _ _ _ Hnd Hin) as Hu. destruct (pruned_nget_fwd _ _ _ _ Hp Hu) as [u' [Hu' _]]. congruence. }
+    destruct (hinsert h id (s_hcache s) (s_hrev s)) as [c' r'] eqn:Ei.
+    destruct (hinsert_ok _ _ _ _ _ _ Ei I2) as [I2' Hent]. cbn [fst].
     split; [|apply (bounded_pruned s); [exact Hb|exact Hp|apply N.le_refl]].
     split; cbn [s_users s_hcache s_hrev s_ncache s_nrev].
     + rewrite (pruned_keys _ _ Hp). exact Hnd.
-    + split; cbn [s_users s_hcache s_hrev s_ncache s_nrev]; [| |exact I5].
-      * intros h2 j Hg. rewrite dict_get_snoc in Hg.
-        destruct (dict_get h2 (s_hcache s)) as [j0|] eqn:Eold.
-        -- inversion Hg; subst j0. destruct (I2 _ _ Eold) as [l [Hl Hin]].
-           destruct (N.eq_dec j id) as [E|E].
-           ++ subst j. rewrite Hl. rewrite nget_nset_same. eexists. split; [reflexivity|].
-              destruct (existsb (seq_eqb h) l); [exact Hin|apply in_or_app; left; exact Hin].
-           ++ exists l. split; [|exact Hin].
-              destruct (nget id (s_hrev s)); rewrite nget_nset_other by exact E; exact Hl.
-        -- destruct (seq_eqb h2 h) eqn:Eh; [|discriminate]. inversion Hg; subst j. apply seq_eqb_eq in Eh. subst h2.
-           destruct (nget id (s_hrev s)) as [l|] eqn:El; rewrite nget_nset_same; eexists; split; try reflexivity.
-           ++ destruct (existsb (seq_eqb h) l) eqn:Ex; [|apply in_or_app; right; left; reflexivity].
-              apply existsb_exists in Ex as [y [Hy Hey]]. apply seq_eqb_eq in Hey. subst y. exact Hy.
-           ++ left. reflexivity.
-      * intros j l Hl. destruct (N.eq_dec j id) as [E|E].
-        -- subst j.
-           assert (Hnew : forall l0, (nget id (s_hrev s) = Some l0 \/ (nget id (s_hrev s) = None /\ l0 = [])) ->
-                   l = (if existsb (seq_eqb h) l0 then l0 else l0 ++ [h]) ->
-                   NoDup l /\ forall h2, In h2 l -> dict_get h2 (s_hcache s ++ [(h, id)]) = Some id).
-           { intros l0 Hl0 El.
-             assert (Hold : NoDup l0 /\ forall h2, In h2 l0 -> dict_get h2 (s_hcache s) = Some id).
-             { destruct Hl0 as [Hl0|[_ Hl0]]; [apply I3; exact Hl0|subst; split; [constructor|intros ? []]]. }
-             destruct Hold as [Hnd0 Hall0].
-             assert (Hni : ~ In h l0) by (intro Hin; rewrite (Hall0 _ Hin) in Emiss; discriminate).
-             assert (Hex : existsb (seq_eqb h) l0 = false).
-             { destruct (existsb (seq_eqb h) l0) eqn:Ex; [|reflexivity].
-               apply existsb_exists in Ex as [y [Hy Hey]]. apply seq_eqb_eq in Hey. subst y. contradiction. }
-             rewrite Hex in El. subst l. split; [apply NoDup_app_snoc; assumption|].
-             intros h2 Hin. rewrite dict_get_snoc. apply in_app_iff in Hin as [Hin|[Hin|[]]].
-             - rewrite (Hall0 _ Hin). reflexivity.
-             - subst h2. rewrite Emiss, seq_eqb_refl. reflexivity. }
-           destruct (nget id (s_hrev s)) as [l0|] eqn:El0; rewrite nget_nset_same in Hl; injection Hl as El.
-           ++ apply (Hnew l0); [left; reflexivity|symmetry; exact El].
-           ++ apply (Hnew []); [right; split; reflexivity|symmetry; exact El].
-        -- assert (Hl' : nget j (s_hrev s) = Some l).
-           { destruct (nget id (s_hrev s)); rewrite nget_nset_other in Hl by exact E; exact Hl. }
-           destruct (I3 _ _ Hl') as [Hnd' Hall']. split; [exact Hnd'|].
-           intros h2 Hin. rewrite dict_get_snoc, (Hall' _ Hin). reflexivity.
-    + intros h2 j Hg. rewrite dict_get_snoc in Hg.
-      destruct (dict_get h2 (s_hcache s)) as [j0|] eqn:Eold.
-      * inversion Hg; subst j0. eapply Live_sub; [exact HL|exact Hp|apply csub_refl|exact Eold].
-      * destruct (seq_eqb h2 h) eqn:Eh; [|discriminate]. inversion Hg; subst j. exact Hid.
-    + intros h2 j Hg. rewrite dict_get_snoc in Hg.
-      destruct (dict_get h2 (s_hcache s)) as [j0|] eqn:Eold.
-      * inversion Hg; subst j0. eapply Coh_sub; [exact Hcoh|exact Hp|apply csub_refl|exact Eold].
-      * destruct (seq_eqb h2 h) eqn:Eh; [|discriminate]. inversion Hg; subst j. apply seq_eqb_eq in Eh. subst h2.
-        right. intros k u' Hk Hu'. apply (Hclean k u' Hu'). cbn [map fst]. intros [E|[]]. congruence.
+    + split. exact I2'.
+    + intros h2 j Hg. apply Hent in Hg as [Hg|[E1 E2]].
+      * eapply Live_sub; [exact HL|exact Hp|apply csub_refl|exact Hg].
+      * subst. exact Hid.
+    + intros h2 j Hg. apply Hent in Hg as [Hg|[E1 E2]].
+      * eapply Coh_sub; [exact Hcoh|exact Hp|apply csub_refl|exact Hg].
+      * subst. right. intros k u' Hk Hu'. apply (Hclean k u' Hu'). cbn [map fst]. intros [E|[]]. congruence.
   - pose proof (remove_offending_pruned us ((id, x) :: e :: r)) as Hp2.
     destruct (remove_offending us ((id, x) :: e :: r)) as [us' ex]. cbn [fst] in *.
     assert (Hp3 : pruned (s_users s) us') by (eapply pruned_trans; eassumption).
@@ -276,14 +243,13 @@ Lemma invalidate_h_ok s h :
     /\ dict_get h (s_hcache s') = None
     /\ CacheInv s'.
 Proof.
-  intros HC. pose proof HC as [I2 I3 I5]. unfold invalidate_h.
+  intros HC. pose proof HC as [I2]. unfold invalidate_h.
   destruct (dict_get h (s_hcache s)) as [id|] eqn:Eg.
   2:{ exists s. split; [reflexivity|]. split; [reflexivity|]. split; [reflexivity|]. split; [auto|]. split; [exact Eg|exact HC]. }
   destruct (I2 _ _ Eg) as [l [Hl Hin]]. rewrite Hl.
   assert (Hex : existsb (seq_eqb h) l = true).
   { apply existsb_exists. exists h. split; [exact Hin|apply seq_eqb_refl]. }
   rewrite Hex.
-  destruct (I3 _ _ Hl) as [Hnd Hall].
   set (l' := filter (fun x => negb (seq_eqb h x)) l).
   set (smid := St (s_users s) (sdel h (s_hcache s))
                   (match l' with [] => ndel id (s_hrev s) | _ => nset id l' (s_hrev s) end)
@@ -294,26 +260,14 @@ Proof.
     - apply negb_true_iff. apply seq_eqb_neq. congruence. }
   assert (HCmid : CacheInv smid).
   { unfold smid. split; cbn [s_hcache s_hrev s_ncache s_nrev].
-    - intros h2 j Hg. apply dict_get_sdel_some in Hg as [Hg Hne]. apply seq_eqb_neq in Hne.
-      destruct (I2 _ _ Hg) as [l2 [Hl2 Hin2]].
-      destruct (N.eq_dec j id) as [E|E].
-      + subst j. rewrite Hl in Hl2. inversion Hl2; subst l2.
-        assert (Hin' : In h2 l') by (apply Hl'in; auto).
-        destruct l' as [|y r] eqn:El'; [destruct Hin'|]. rewrite nget_nset_same. eexists. split; [reflexivity|exact Hin'].
-      + exists l2. split; [|exact Hin2].
-        destruct l'; [rewrite nget_ndel_other by exact E|rewrite nget_nset_other by exact E]; exact Hl2.
-    - intros j l2 Hl2. destruct (N.eq_dec j id) as [E|E].
-      + subst j. destruct l' as [|y r] eqn:El'; [rewrite nget_ndel_same in Hl2; discriminate|].
-        rewrite nget_nset_same in Hl2. inversion Hl2; subst l2. split.
-        * rewrite <- El'. unfold l'. apply NoDup_filter. exact Hnd.
-        * intros h2 Hin2. apply Hl'in in Hin2 as [Hin2 Hne].
-          rewrite dict_get_sdel_other; [apply Hall; exact Hin2|]. apply seq_eqb_neq. exact Hne.
-      + assert (Hl2' : nget j (s_hrev s) = Some l2).
-        { destruct l'; [rewrite nget_ndel_other in Hl2 by exact E|rewrite nget_nset_other in Hl2 by exact E]; exact Hl2. }
-        destruct (I3 _ _ Hl2') as [Hnd2 Hall2]. split; [exact Hnd2|].
-        intros h2 Hin2. rewrite dict_get_sdel_other; [apply Hall2; exact Hin2|].
-        apply seq_eqb_neq. intro E2. subst h2. rewrite (Hall2 _ Hin2) in Eg. inversion Eg. congruence.
-    - exact I5. }
+    intros h2 j Hg. apply dict_get_sdel_some in Hg as [Hg Hne]. apply seq_eqb_neq in Hne.
+    destruct (I2 _ _ Hg) as [l2 [Hl2 Hin2]].
+    destruct (N.eq_dec j id) as [E|E].
+    + subst j. rewrite Hl in Hl2. inversion Hl2; subst l2.
+      assert (Hin' : In h2 l') by (apply Hl'in; auto).
+      destruct l' as [|y r] eqn:El'; [destruct Hin'|]. rewrite nget_nset_same. eexists. split; [reflexivity|exact Hin'].
+    + exists l2. split; [|exact Hin2].
+      destruct l'; [rewrite nget_ndel_other by exact E|rewrite nget_nset_other by exact E]; exact Hl2. }
   destruct (invalidate_id_ok smid id HCmid) as [s' [Hinv [Hu [Hn [Hiff HC']]]]].
   fold l'. fold smid. rewrite Hinv. exists s'. split; [reflexivity|].
   split; [exact Hu|]. split; [exact Hn|]. split; [|split; [|exact HC']].
@@ -361,7 +315,7 @@ Proof.
   { apply (bounded_pruned s); [exact Hb|exact Hp1|apply N.le_refl]. }
   destruct (truthy x); [split; assumption|].
   destruct (invalidate_h_ok _ h (i_cache _ HI1)) as [s2 [Hinv [Hu2 [Hn2 [Hsub [Hnone HC2]]]]]].
-  rewrite Hinv. apply miss_preserves; [| |exact Hnone].
+  rewrite Hinv. apply miss_preserves.
   - apply (Inv_sub (with_users s (nset id u' (s_users s)))); [exact HI1|rewrite Hu2; apply pruned_refl|exact HC2|exact Hsub].
   - apply (bounded_pruned (with_users s (nset id u' (s_users s)))); [exact Hb1|rewrite Hu2; apply pruned_refl|rewrite Hn2; apply N.le_refl].
 Qed.
@@ -375,16 +329,11 @@ Lemma name_lookup_facts s0 name :
   /\ s_hrev (fst (getUserIdByName s0 name)) = s_hrev s0
   /\ s_next (fst (getUserIdByName s0 name)) = s_next s0.
 Proof.
-  intros HC. pose proof HC as [I2 I3 I5]. unfold getUserIdByName.
+  intros HC. pose proof HC as [I2]. unfold getUserIdByName.
   destruct (dict_get (C03.Model.lower name) (s_ncache s0)) as [i|] eqn:Ec; [cbn [fst]; auto|].
   destruct (find_name (C03.Model.lower name) (s_users s0)) as [i|]; [|cbn [fst]; auto].
-  cbn [fst s_users s_hcache s_hrev s_next]. split; [|auto].
-  split; cbn [s_hcache s_hrev]; [exact I2|exact I3|].
-  cbn [s_nrev s_ncache]. intros j n Hj.
-  destruct (N.eq_dec j i) as [E|E].
-  - subst j. rewrite nget_nset_same in Hj. inversion Hj; subst n. apply dict_get_set_same.
-  - rewrite nget_nset_other in Hj by exact E. pose proof (I5 _ _ Hj) as Hg.
-    rewrite dict_get_set_other; [exact Hg|]. apply seq_eqb_neq. intro En. subst n. congruence.
+  destruct (ninsert (C03.Model.lower name) i (s_ncache s0) (s_nrev s0)) as [nc nr].
+  cbn [fst s_users s_hcache s_hrev s_next]. split; [|auto]. split. exact I2.
 Qed.
 
 Lemma rollback_restores id u users :
@@ -427,7 +376,7 @@ Proof.
   intros Hnd HC HL Hb Hc. unfold setUser.
   set (us0 := match uget id (s_users s) with Some _ => uset id u (s_users s) | None => s_users s end).
   set (s00 := St us0 (s_hcache s) (s_hrev s) (s_ncache s) (s_nrev s) (N.max (s_next s) id)).
-  assert (HC00 : CacheInv s00) by (destruct HC as [A B C]; split; assumption).
+  assert (HC00 : CacheInv s00) by (destruct HC as [A]; split; assumption).
   destruct (invalidate_fold_ok (u_auth u) s00 HC00) as [s0 [Hf [Hu0 [Hn0 [Hsub0 [Hnone0 HC0]]]]]].
   rewrite Hf.
   change (s_users s00) with us0 in Hu0. change (s_next s00) with (N.max (s_next s) id) in Hn0.
@@ -614,7 +563,7 @@ Qed.
 Lemma new_preserves s :
   Inv s -> ids_bounded s -> Inv (fst (newUser s)) /\ ids_bounded (fst (newUser s)).
 Proof.
-  intros [Hnd [I2 I3 I5] HL Hcoh] Hb. unfold newUser. cbn [fst]. rewrite uset_nset.
+  intros [Hnd [I2] HL Hcoh] Hb. unfold newUser. cbn [fst]. rewrite uset_nset.
   assert (Hfresh : forall j x, nget j (s_users s) = Some x -> j <> s_next s + 1).
   { intros j x Hj E. specialize (Hb _ _ Hj). lia. }
   assert (Hget : forall k x, nget k (nset (s_next s + 1) (User [] [] [] false) (s_users s)) = Some x ->
@@ -696,17 +645,11 @@ Qed.
 Lemma invalidate_id_users s id s' : invalidate_id s id = Ok s' -> s_users s' = s_users s.
 Proof.
   unfold invalidate_id.
-  destruct (match nget id (s_nrev s) with
-            | Some n => if dict_has n (s_ncache s)
-                        then Ok (St (s_users s) (s_hcache s) (s_hrev s) (sdel n (s_ncache s)) (ndel id (s_nrev s)) (s_next s))
-                        else Raise KeyError
-            | None => Ok s end) as [s1|e] eqn:E1; [|discriminate].
-  assert (Hu1 : s_users s1 = s_users s).
-  { destruct (nget id (s_nrev s)); [destruct (dict_has _ _)|]; inversion E1; reflexivity. }
-  cbn [bind]. destruct (nget id (s_hrev s1)) as [hs|]; [|intro H; inversion H; subst; exact Hu1].
-  fold (drop_loop s1 id). generalize (s_hcache s1). induction hs as [|h hs IH]; intro c; cbn [drop_loop].
-  - intro H. inversion H. exact Hu1.
-  - destruct (dict_has h c); [apply IH|discriminate].
+  set (s1 := match nget id (s_nrev s) with
+             | Some n => St (s_users s) (s_hcache s) (s_hrev s) (sdel n (s_ncache s)) (ndel id (s_nrev s)) (s_next s)
+             | None => s end).
+  assert (Hu1 : s_users s1 = s_users s) by (unfold s1; destruct (nget id (s_nrev s)); reflexivity).
+  destruct (nget id (s_hrev s1)); intro H; inversion H; exact Hu1.
 Qed.
 
 Lemma invalidate_h_users s h s' : invalidate_h s h = Ok s' -> s_users s' = s_users s.
